@@ -75,7 +75,35 @@ def step (_s : Unit) (ts : List String) : Unit × String :=
     | _ => "bad-op"
   ((), r)
 
-def main (_args : List String) : IO UInt32 :=
-  runLines () step
+/-- stream `node`: stateful whole-chain view (`ninit …` then one `nb <number> <timestamp> <uncles>` per block) -/
+def stepNode (st : Option ChainSt) (ts : List String) : Option ChainSt × String :=
+  match ts with
+  | op :: args =>
+    match parseNats? args with
+    | none => (st, "bad-op")
+    | some a =>
+      match op, a with
+      | "ninit", [T, initial, halving, ortN, ortD, base, rem, hr, len, compact, gts] =>
+        (some { P := { T, initial, halving, ortN, ortD },
+                cur := { number := 0, base, rem, prevHR := hr, start := 0, length := len, compact },
+                lastEndTs := gts, lastEndTU := 0, tu := 0, tipNumber := 0, tipTs := gts }, "ok")
+      | "nb", [number, t, nunc] =>
+        (match st with
+         | none => (st, "bad-op")
+         | some s =>
+           if number ≠ s.tipNumber + 1 then (st, "bad-op") else
+           match chainStep s t nunc with
+           | none => (st, "fail")
+           | some (s', field, compact, head) =>
+             let e := s'.cur
+             let tail := if head then s!" E {e.number} {e.base} {e.rem} {hx e.prevHR} {e.start} {e.length}" else ""
+             (some s', s!"{field} {compact}{tail}"))
+      | _, _ => (st, "bad-op")
+  | _ => (st, "bad-op")
+
+def main (args : List String) : IO UInt32 :=
+  match args with
+  | ["node"] => runLines (none : Option ChainSt) stepNode
+  | _ => runLines () step
 
 end CkbVerif.Driver.C07
